@@ -45,6 +45,24 @@ Theorem C06_warn_succeeds : forall lazy wrl disabled strategy limit batch (scrip
 Proof. exact warn_succeeds6. Qed.
 Print Assumptions C06_warn_succeeds.
 
+(* The same through the Thanos querier (pkg/query/querier.go Select; deduplication off): with
+   partial response off a failing store makes the series set fail; with partial response on it
+   succeeds, every failed store's warning is among the annotations and every label set delivered
+   by a store whose stream opened is among the series. *)
+Theorem C06_querier_abort_fails : forall lazy batch (scripts : list script),
+  (exists s w, In s scripts /\ fail_warning s = Some w) ->
+  querier_select lazy false batch scripts = None.
+Proof. exact querier_abort_fails. Qed.
+Print Assumptions C06_querier_abort_fails.
+
+Theorem C06_querier_warn_succeeds : forall lazy batch (scripts : list script),
+  exists ls ws,
+    querier_select lazy true batch scripts = Some (ls, ws)
+    /\ (forall s w, In s scripts -> fail_warning s = Some w -> In w ws)
+    /\ (forall s X cs, In s scripts -> sopen_err s = None -> In (X, cs) (presented false (rm_labels []) s) -> In X ls).
+Proof. exact querier_warn_succeeds. Qed.
+Print Assumptions C06_querier_warn_succeeds.
+
 (* Non-vacuity: three stores; the first fails after one frame, the second cannot be
    opened, the third is healthy. ABORT fails; WARN succeeds with both warnings and with
    the healthy store's series (and the frame the first store delivered before failing). *)
